@@ -24,9 +24,11 @@ VARIABLES l, tab, ncell
 
 NCells == 256 * Cardinality(EncNames)
 
-Ok(tag) == [v |-> tag, vs |-> <<>>, bad |-> <<>>, cls |-> <<>>]
-Fail(fails, cls) == [v |-> fails[1], vs |-> fails, bad |-> <<>>, cls |-> cls]
-Verdict(fails, tag, cls) == IF fails = <<>> THEN Ok(tag) ELSE Fail(fails, cls)
+\* v: "ok-<cat>" or the first failed clause; cat: the category of the *input* (whatever the outcome), used by
+\* the check script for its anti-vacuity counts
+Ok(cat) == [v |-> "ok-" \o cat, cat |-> cat, vs |-> <<>>, bad |-> <<>>, cls |-> <<>>]
+Fail(fails, cls) == [v |-> fails[1], cat |-> "rejected", vs |-> fails, bad |-> <<>>, cls |-> cls]
+Verdict(fails, cat, cls) == IF fails = <<>> THEN Ok(cat) ELSE [Fail(fails, cls) EXCEPT !.cat = cat]
 If(c, f) == IF c THEN <<f>> ELSE <<>>
 
 ClassSeq(s) == [i \in 1..Len(s) |-> ClassOf(s[i])]
@@ -38,25 +40,25 @@ JCell(r) ==
     ELSE IF ~CellOk(r.d) THEN Fail(<<"table.cell-not-unit">>, <<>>)
     ELSE Verdict(If(~PublishedOk(r.e, r.b, r.d), "table.published")
                  \o If(r.d # <<>> /\ (r.st2 # "ok" \/ r.dd # r.d), "table.reenc"),
-                 IF InPublished(r.e, r.b) THEN "ok-published" ELSE IF r.d = <<>> THEN "ok-absent" ELSE "ok-present",
+                 IF InPublished(r.e, r.b) THEN "published" ELSE IF r.d = <<>> THEN "absent" ELSE "present",
                  <<>>)
 
 JBytes(r) ==
     IF r.st # "ok" THEN Fail(<<"table.decode-fails">>, <<>>)
     ELSE Verdict(If(r.st2 # "ok" \/ r.dd # r.d, "table.reenc"),
-                 IF ncell = NCells /\ r.d # DecodeT(tab[r.e], r.b) THEN "ok-drift" ELSE "ok-bytes", <<>>)
+                 IF ncell = NCells /\ r.d # DecodeT(tab[r.e], r.b) THEN "drift" ELSE "bytes", <<>>)
 
 \* failed clauses of one text_string / decode_text_string round trip
 TsFails(s, enc, st, d) ==
     If(~EncOk(s, enc), IF AllAscii(s) THEN "enc.ascii-stays" ELSE "enc.utf16")
     \o (IF st = "ok" /\ d = s THEN <<>>
         ELSE IF st = "panic" THEN <<"textrt.panic">>
-        ELSE IF st = "ok" /\ SigRT(s, AllDevs) # "none" /\ enc = ImplEnc(s) /\ Def(d) = ImplDec(enc, AllDevs)
-             THEN <<SigRT(s, AllDevs)>>
+        ELSE IF st = "ok" /\ enc = ImplEnc(s) /\ Explained(enc, SigsRT(s, AllDevs), Def(d)) # {}
+             THEN SetToSeq(Explained(enc, SigsRT(s, AllDevs), Def(d)))
         ELSE <<"textrt">>)
 
 JTs(r) == IF ~IsString(r.s) THEN Fail(<<"tool:not-scalars">>, <<>>)
-          ELSE Verdict(TsFails(r.s, r.enc, r.st, r.d), IF AllAscii(r.s) THEN "ok-ascii" ELSE "ok-utf16", ClassSeq(r.s))
+          ELSE Verdict(TsFails(r.s, r.enc, r.st, r.d), IF AllAscii(r.s) THEN "ascii" ELSE "utf16", ClassSeq(r.s))
 
 JScal(r) ==
     LET n == Len(r.cs)
@@ -64,22 +66,22 @@ JScal(r) ==
                                         IF f = <<>> THEN acc ELSE Append(acc, [c |-> r.cs[i], vs |-> f]),
                         <<>>, [i \in 1..n |-> i])
     IN IF \E i \in 1..n : ~IsScalar(r.cs[i]) THEN Fail(<<"tool:not-scalars">>, <<>>)
-       ELSE IF bad = <<>> THEN Ok("ok-batch")
-       ELSE [v |-> "bad-batch", vs |-> <<>>, bad |-> bad, cls |-> <<>>]
+       ELSE IF bad = <<>> THEN Ok("batch")
+       ELSE [v |-> "bad-batch", cat |-> "batch", vs |-> <<>>, bad |-> bad, cls |-> <<>>]
 
 DecFails(b, e, st, d, clause) ==          \* e = what the declarative layer expects
     IF ~e.def THEN If(st = "panic", "dec.panic")
     ELSE IF st = "ok" /\ d = e.s THEN <<>>
     ELSE IF st = "panic" THEN <<"dec.panic">>
-    ELSE IF st = "ok" /\ SigDec(b, AllDevs) # "none" /\ Def(d) = ImplDec(b, AllDevs) THEN <<SigDec(b, AllDevs)>>
+    ELSE IF st = "ok" /\ Explained(b, SigsDec(b, AllDevs), Def(d)) # {} THEN SetToSeq(Explained(b, SigsDec(b, AllDevs), Def(d)))
     ELSE <<clause>>
 
 JU8(r) == IF ~IsString(r.s) \/ r.b # Bom8 \o Utf8Str(r.s) THEN Fail(<<"tool:utf8-of-harness-differs">>, <<>>)
-          ELSE Verdict(DecFails(r.b, Def(r.s), r.st, r.d, "utf8too"), "ok-utf8", ClassSeq(r.s))
+          ELSE Verdict(DecFails(r.b, Def(r.s), r.st, r.d, "utf8too"), "utf8", ClassSeq(r.s))
 
 JRaw(r) == IF ~IsBytes(r.b) THEN Fail(<<"tool:not-bytes">>, <<>>)
            ELSE Verdict(DecFails(r.b, Dec(r.b), r.st, r.d, "dec." \o Branch(r.b)),
-                        IF Dec(r.b).def THEN "ok-raw-" \o Branch(r.b) ELSE "ok-undef-" \o Branch(r.b), <<>>)
+                        IF Dec(r.b).def THEN "raw-" \o Branch(r.b) ELSE "undef-" \o Branch(r.b), <<>>)
 
 JExt(r) ==
     LET n == Len(r.parts)
@@ -88,7 +90,7 @@ JExt(r) ==
        ELSE IF \E i \in 1..n : r.parts[i].e \notin EncNames \/ DecodeT(tab[r.parts[i].e], r.parts[i].b) # r.parts[i].t
             THEN Fail(<<"tool:ext-case-inconsistent">>, <<>>)
        ELSE Verdict(If(~(r.st1 = "ok" /\ Match(ts, r.r1)), "extract.fresh")
-                    \o If(~(r.st2 = "ok" /\ Match(ts, r.r2)), "extract.reloaded"), "ok-extract", <<>>)
+                    \o If(~(r.st2 = "ok" /\ Match(ts, r.r2)), "extract.reloaded"), "extract", <<>>)
 
 Judge(r) == CASE r.k = "cell"  -> JCell(r)
               [] r.k = "bytes" -> JBytes(r)
